@@ -27,6 +27,7 @@ pub use crate::{
             SplitCtx, Splitter,
         },
         indexer::{EntryAddress, HashedEntryAddress, Index, Indexer},
+        manager::verif_events,
         scanner::{BlockScanner, EntryInfo},
         serde::{EntryHeader, Sequence},
         tombstone::{Tombstone, TombstoneLog},
